@@ -551,7 +551,21 @@ def run(tier, seed, which="C03"):
             if nv["outcome"] != "passed":
                 obligations.append({"engine": "smt", "harness": "s02_node_validation", "verdict": "inconclusive", "queries": 0, "solver_s": 0,
                                     "message": "the catalogue-level obligations are discharged but a real node does not replicate across a log-file rollover: %s" % nv["message"]})
-        extra_obs = [rob, bob]
+        cob = c03files.run_compaction(tier, seed)
+        if cob.get("verdict") == "violation":
+            rr = native_scenarios("C02", "violation", ["pointer_inside_file_then_reopen"], cob["message"], {"obligation": cob["harness"], "model": cob.get("counterexample")})
+            cob["replay_path"] = rr["path"]
+            if rr["outcome"] == "reproduced":
+                cob["replay"] = {"path": rr["path"], "outcome": rr["outcome"], "message": rr["message"]}
+                cob["message"] = "%s [real node, through RaftStorage::finalize_snapshot_installation + reopen: %s]" % (cob["message"], rr["message"][:400])
+            else:
+                cob["replay"] = {"path": rr["path"], "outcome": "model-only", "message": "the fixed node scenario (pointer inside the current file, reopen) does not show it: %s" % rr["message"][:200]}
+        elif cob.get("verdict") == "discharged":
+            nv2 = native_scenarios("C02", "validate", ["pointer_inside_file_then_reopen"])
+            info["translator_validation_pointer"] = {"outcome": nv2["outcome"], "message": nv2["message"], "path": nv2["path"]}
+            if nv2["outcome"] != "passed":
+                cob.update({"verdict": "inconclusive", "message": "the obligation is discharged but on a real node entries covered by a pointer come back after a reopen: %s" % nv2["message"]})
+        extra_obs = [rob, bob, cob]
     if which == "C03":
         # the level above one file: which files of the catalogue a truncation reaches (RaftLogManager::strip_log_to_index)
         from . import c03files
